@@ -12,6 +12,11 @@ import (
 )
 
 func TestMain(m *testing.M) {
+	if first := os.Getenv("VERIF_FIRST_USE"); first != "" {
+		// (subprocess of the first-use checks: nothing else may touch the library before)
+		firstUseChild(first)
+		os.Exit(0)
+	}
 	code := m.Run()
 	col.Flush()
 	os.Exit(code)
